@@ -130,7 +130,7 @@ def forward_one(node, case, out):
         plen = len(case['payload']) // 2
         # room for the blocks that forwarding adds and for about half of the payload
         mtu = len(wire_in) + 40 - plen // 2 if plen >= 64 and not int(case['flags']) & r.FLAG_NO_FRAGMENT else None
-    node.config.tx_route_table[0].mtu = mtu
+    node.set_mtu(0, mtu)
     err = node.receive(wire_in, run=False)
     if err is not None:
         out.fail('receive-raises:%s' % type(err).__name__, 'receiving a well-formed bundle raised: %s' % err)
